@@ -62,3 +62,16 @@ fire("C33", "snapshot-rebuilt-without-its-shots-override",
 silent("C33", "snapshot-rebuilt-positionally",
        [(_PRE, "                new_ops[i] = Snapshot(\n                    measurement=new_mp, tag=op.tag, shots=op.hyperparameters[\"shots\"]\n                )",
                "                new_ops[i] = Snapshot(op.tag, new_mp, op.hyperparameters[\"shots\"])")])
+
+# --- R-C33-modes
+_DAPI = "pennylane/devices/device_api.py"
+fire("C33", "shots-observable-condition-built-from-analytic-capabilities",
+     (_DAPI, "            stopping_condition_shots=observable_stopping_condition_factory(capabilities_shots),\n",
+      "            stopping_condition_shots=observable_stopping_condition_factory(capabilities_analytic),\n"),
+     "R-C33-modes", "stopping_condition_shots")
+fire("C33", "sample-measurements-checked-against-analytic-view",
+     (_DAPI, "            in capabilities_shots.measurement_processes,\n", "            in capabilities_analytic.measurement_processes,\n"),
+     "R-C33-modes", "sample_measurements")
+silent("C33", "per-mode-conditions-bound-to-locals-first",
+       [(_DAPI, "            stopping_condition=observable_stopping_condition_factory(capabilities_analytic),\n            stopping_condition_shots=observable_stopping_condition_factory(capabilities_shots),\n",
+         "            stopping_condition=(acc_a := observable_stopping_condition_factory(capabilities_analytic)),\n            stopping_condition_shots=(acc_s := observable_stopping_condition_factory(capabilities_shots)),\n")])
